@@ -260,6 +260,10 @@ type caseResult struct {
 	Err    string
 }
 
+// knownLabelHook: set by `run` so that only violations that are not recorded known findings start
+// the early-stop grace period of a case.
+var knownLabelHook func(entry, label string, args []int64) bool
+
 func runJobs(l *symex.Loaded, hs []*harnessFile, jobs []job, workers int, cfg symex.Config, verbose bool) []caseResult {
 	results := make([]caseResult, len(jobs))
 	ch := make(chan int)
@@ -293,6 +297,10 @@ func runJobs(l *symex.Loaded, hs []*harnessFile, jobs []job, workers int, cfg sy
 						}
 					}()
 					c := cfg
+					if knownLabelHook != nil {
+						entry, args := j.Spec.Entry, j.Args
+						c.KnownLabel = func(label string) bool { return knownLabelHook(entry, label, args) }
+					}
 					if v, ok := j.Spec.Opts["unwind"]; ok {
 						c.Unwind, _ = strconv.Atoi(v)
 					}
